@@ -39,3 +39,24 @@ Proof. vm_compute; discriminate. Qed.
 
 Example C16_example : pickVersion 6 12 = 3 /\ pickVersion 2 12 = 2 /\ pickVersion 4 4 = 0.
 Proof. vm_compute; auto. Qed.
+
+(* at conversation level, over histories (Proto/VersionInv.v): a new conversation with policy set [pol] never commits to
+   a version the policy forbids, and every encoded message it ever emits - key exchange messages, data messages, what
+   is released from the queue or kept for retransmission - carries a version that is none (0: no such header exists in
+   the code), 2 with ALLOW_V2, or 3 with ALLOW_V3 *)
+From OTR Require Import Proto.Conv Proto.VersionInv.
+Theorem C16_only_allowed_versions_over_histories : forall who pol key h, all_versions_ok pol (conv_init who pol key) h.
+Proof. exact only_allowed_versions. Qed.
+Print Assumptions C16_only_allowed_versions_over_histories.
+
+Theorem C16_call_keeps_versions_allowed : forall pol now op c, PInv pol c ->
+  let '(c', r) := step now c op in PInv pol c' /\ okl pol (r_out r).
+Proof. exact pv_step. Qed.
+Print Assumptions C16_call_keeps_versions_allowed.
+
+(* offered 2 and 3: a conversation that allows only 2 answers with a version 2 message, one that allows both with 3 *)
+Example C16_versions_example :
+  let vs pol := map (fun w => match w with WEnc v _ _ _ => v | _ => 99 end)
+                    (r_out (snd (step 0 (conv_init 1 pol 1) (CReceive (WQuery 12) 0 [])))) in
+  vs 2 = [2] /\ vs 6 = [3].
+Proof. vm_compute; auto. Qed.
